@@ -114,6 +114,15 @@ def run(rep, tier):
                 rep.ok("R-C04-only-via", fn["n"], "calls %s" % callee, "%s | %s" % (label, loc), nontrivial=False)
             else:
                 rep.violation("R-C04-only-via", fn["n"] + " [direct backend translation]", "%s calls %s directly, bypassing the null short-circuit of the translation entry points" % (fn["n"], callee), loc, label)
+        # the registry the context-free translations search must keep every live sandbox: destroy removes exactly its own entry
+        from ..report import RuleView as _RV
+        for f_ in db.functions:
+            if not f_["dep"] and "body" in f_ and f_["n"] in (SB + "::create_sandbox", SB + "::destroy_sandbox"):
+                from . import c14 as _c14
+                try:
+                    (_c14.check_create if f_["sn"] == "create_sandbox" else _c14.check_destroy)(_RV(rep, {"R-C14-registry": "R-C04-find"}), db, f_, "%s | %s" % (label, f_["full"][:150]), {})
+                except Inconclusive as ex:
+                    rep.inconclusive("R-C04-find", site(f_), str(ex), "%s | %s" % (label, f_["full"][:150]))
         finders = finder_functions(db)
         for f in db.functions:
             if f["dep"] or "body" not in f:
